@@ -180,6 +180,7 @@ def dup_vsr_refs(c):
     for r in c.get("res") or []:
         if r["kind"] == "vs":
             refs = [x.split("->", 1)[1] for x in r.get("routes") or []]
+            refs = [x if "/" in x else r["ns"] + "/" + x for x in refs]     # a reference without namespace = own namespace
             for ref in sorted(set(refs)):
                 if refs.count(ref) > 1:
                     out.append((r, ref))
@@ -359,7 +360,7 @@ TRUSTED = [
 
 
 def check(run):
-    n = 450 if run.tier == "quick" else 6000
+    n = 300 if run.tier == "quick" else 6000
     run.proof_obligations()
     binary = C.go_build("c07")
     out = os.path.join(C.WORK, "cases", "c07_%s.jsonl" % run.tier)
